@@ -25,16 +25,22 @@ REQUIRED = ['split_partition', 'pairing_ne', 'pairing_double', 'trainOf_schedule
             # Props/C04_Gen.lean: ties of the regenerated split / pairing code (Gen/XfitSplit.lean) to the model
             'sample_split_generated', 'nuisance_generated', 'min_splits_generated', 'single_crossfit_generated_single',
             'single_crossfit_generated_double', 'split_partition_generated', 'crossfit_sound_generated_single',
-            'crossfit_sound_generated_double', 'crossfit_generated', 'crossfit_sound_generated']
+            'crossfit_sound_generated_double', 'crossfit_generated', 'crossfit_sound_generated',
+            # round 4: the hypothesis rows.Nodup (pairwise distinct labels) cannot be dropped
+            'split_labels_must_be_distinct']
 RULE = ('configuration cells enumerated: 4 estimator classes x n_splits 2..6 (3..6 double) x n_partitions 1..4; per '
         'cell random sample size (incl. sizes not divisible by n_splits and tiny parts), random learner kind '
         '(predict_proba spy / predict-only spy / spy wrapping a real sklearn learner), binary or continuous outcome, '
-        'rows with missing values, non-default index, optional bound, median/mean; cases are run twice with the same '
+        'rows with missing values crossed with the kind of index labels (default, shuffled, offset, string, and '
+        'REPEATED labels: stacked extracts, household / site identifiers, one constant label) and with exact '
+        'duplicates of records (stacked overlapping extracts, expanded frequency tables, re-labelled copies; the '
+        'analysed rows are then a multiset of identifiers), optional bound, median/mean; cases are run twice with the same '
         'random_state (incl. the falsy seed 0 for every class); warm-start learners (a fit continues from what the '
         'object has seen); histories of 3 respecify+fit steps with varying n_splits / n_partitions / method / learners '
         'on one object, each judged like a single fit and the last compared with a fresh object; pairs of analyses in '
         'one process on different data of equal length with the same n_splits and seed; functional-style learners (fit '
-        'returns a new object) and learners the user pre-fitted on the full data.  distinct = distinct (class, n_splits, n_partitions, n, data seed); non-trivial = n not '
+        'returns a new object) and learners the user pre-fitted on the full data; the splitting function itself on '
+        'frames whose records repeat under distinct labels.  distinct = distinct (class, n_splits, n_partitions, n, data seed); non-trivial = n not '
         'divisible by n_splits or n_partitions > 1')
 ASSUMPTIONS = ['DataFrame.sample(n=m, random_state=RandomState(seed)) returns m distinct rows of its argument '
                '(measured on a reference invocation per observed draw)',
@@ -48,6 +54,7 @@ CLASSES = {'SingleCrossfitAIPTW': False, 'DoubleCrossfitAIPTW': True, 'SingleCro
 
 LOG = []
 _COUNTER = itertools.count()
+SPLIT_OBS = []      # per call of crossfit._sample_split_ made by an estimator: (labels pairwise distinct?, rows)
 
 
 class _State:
@@ -224,7 +231,44 @@ def gen_data(case):
     # of another analysis in the same process are recognised as foreign
     base = (case['data_seed'] % 89) * 1000
     df = pd.DataFrame({'rid': base + np.arange(n, dtype=float), 'A': A, 'L1': L1, 'L2': L2, 'Y': Y}, index=idx)
-    rows = [int(base + i) for i in np.arange(n)[~miss]]
+    # index labels that are not unique / not integers (round 4): two extracts stacked with pd.concat (labels restart),
+    # household / site identifiers used as the index (each label on two or three rows), string labels, one constant
+    # label, a named index, two-level (site, visit) labels, dates.  The rows are all different; only their labels repeat.
+    kind = case['index']
+    if kind == 'stacked':
+        h = int(r.integers(1, n)) if n > 1 else 0
+        df.index = np.concatenate([np.arange(h), np.arange(n - h)])
+    elif kind == 'household':
+        df.index = (np.arange(n) // int(r.integers(2, 4))) * 10
+    elif kind == 'string':
+        df.index = ['p%03d' % v for v in r.permutation(n)]
+    elif kind == 'string_repeated':
+        df.index = ['site%d' % (v % 3) for v in range(n)]
+    elif kind == 'constant':
+        df.index = np.zeros(n, dtype=int)
+    elif kind == 'named_household':     # a NAMED index (reset_index then adds a column of that name)
+        df.index = pd.Index(np.arange(n) // int(r.integers(2, 4)), name='household')
+    elif kind == 'multi':               # two-level labels (site, visit), each pair on several rows; named or not
+        names = ['site', 'visit'] if r.uniform() < 0.5 else None
+        df.index = pd.MultiIndex.from_arrays([np.arange(n) % 3, np.arange(n) // 3 % 4], names=names)
+    elif kind == 'datetime':            # visit dates, two rows a day
+        df.index = pd.to_datetime('2020-01-01') + pd.to_timedelta(np.arange(n) // 2, unit='D')
+    # exact duplicates of records (round 4): overlapping extracts stacked with pd.concat ('stack': the copy keeps
+    # the label of the original and comes at the end), a frequency table expanded row by row ('expand': the copies
+    # follow the original), or the copies re-labelled by ignore_index=True ('relabel').  A duplicated record is the
+    # same in every column, row identifier included: the spies cannot tell the copies apart, so the analysed rows
+    # are a MULTISET of identifiers and every predicate below counts occurrences.
+    if case.get('n_dup'):
+        # (copies of complete records only, or of any record -- a copy of an incomplete record is dropped with it)
+        pool = np.flatnonzero(~miss) if case.get('dup_complete', True) else np.arange(n)
+        take = pool[r.integers(0, len(pool), size=case['n_dup'])]
+        if case['dup_mode'] == 'expand':
+            cnt = np.ones(n, dtype=int)
+            np.add.at(cnt, take, 1)
+            df = df.iloc[np.repeat(np.arange(n), cnt)]
+        else:
+            df = pd.concat([df, df.iloc[take]], ignore_index=(case['dup_mode'] == 'relabel'))
+    rows = [int(v) for v in df.dropna()['rid']]
     return df, rows
 
 
@@ -244,10 +288,27 @@ def run_steps(case, steps):
     """specify + fit, once per step, on ONE estimator object -> per step (log, results, error, learner_side)"""
     import traceback
     import zepid.causal.doublyrobust as dr
+    from zepid.causal.doublyrobust import crossfit as xf
     df, rows = gen_data(case)
     out = []
     warnings.simplefilter('ignore')     # statsmodels re-enables its own categories at import time
     est = None
+    # the splitting function is wrapped in this process only (never in the repository) to MEASURE the hypothesis
+    # of `split_partition` at the call site: the frame it is handed carries pairwise distinct labels
+    real_split = xf._sample_split_
+
+    def spy_split(data, *a, **kw):
+        SPLIT_OBS.append((bool(data.index.is_unique), int(data.shape[0])))
+        return real_split(data, *a, **kw)
+    xf._sample_split_ = spy_split
+    try:
+        _run_steps(case, steps, dr, df, out, est, traceback)
+    finally:
+        xf._sample_split_ = real_split
+    return out, rows
+
+
+def _run_steps(case, steps, dr, df, out, est, traceback):
     for st in steps:
         a_l, y_l = make_learners(st['kind'], case['continuous'], df)
         del LOG[:]
@@ -263,7 +324,6 @@ def run_steps(case, steps):
             err = '%s: %s' % (type(e).__name__, str(e)[:120])
             lside = _learner_side(traceback.extract_tb(e.__traceback__))
         out.append(([dict(e) for e in LOG], res, err, lside))
-    return out, rows
 
 
 def step_of(case):
@@ -329,21 +389,28 @@ def nan_equal(a, b):
 
 
 def judge_partition(part, rows, k, double):
-    """the property's predicate on the observed calls of one complete partition -> list of (ok, what)"""
+    """the property's predicate on the observed calls of one complete partition -> list of (ok, what).
+    `rows` is the multiset of identifiers of the analysed rows (an exact duplicate of a record carries the
+    identifier of its original, see gen_data): membership is judged by counting occurrences; which copy of a
+    duplicated record went where cannot be observed, so the leak and the different-parts predicates are judged on
+    the rows whose identifier is unique."""
+    from collections import Counter
     out = []
     tfits = [e for e in part if e['ev'] == 'fit' and e['role'] == 't']
     yfits = [e for e in part if e['ev'] == 'fit' and e['role'] == 'y']
     preds = [e for e in part if e['ev'] == 'pred']
     parts_t = [e['ids'] for e in tfits]
     flat = [i for p in parts_t for i in p]
+    mult = Counter(rows)
+    twins = {i for i, c in mult.items() if c > 1}
     out.append((len(parts_t) == k, 'n_splits parts are fitted'))
-    out.append((len(flat) == len(set(flat)), 'parts are pairwise disjoint'))
+    out.append((all(c <= max(1, mult.get(i, 0)) for i, c in Counter(flat).items()), 'parts are pairwise disjoint'))
     out.append((sorted(flat) == sorted(rows), 'parts are exhaustive (union = analysed rows)'))
     sizes = [len(p) for p in parts_t]
     out.append((bool(sizes) and max(sizes) - min(sizes) < k, 'parts are near-equal (sizes differ by < n_splits)'))
     out.append((sorted(map(sorted, parts_t)) == sorted(sorted(e['ids']) for e in yfits),
                 'outcome learners are fitted on the same parts'))
-    leak = [e for e in preds if e['fit_id'] is None or set(e['ids']) & set(e['train'])]
+    leak = [e for e in preds if e['fit_id'] is None or (set(e['ids']) & set(e['train'])) - twins]
     out.append((not leak, 'no learner predicts a row it was trained on (and none predicts unfitted)'))
     for role, arm in (('t', 0), ('y', 1), ('y', 2)):
         got = sorted(i for e in preds if e['role'] == role and e['arm'] == arm for i in e['ids'])
@@ -353,7 +420,10 @@ def judge_partition(part, rows, k, double):
         for e in preds:
             for i in e['ids']:
                 (tr_t if e['role'] == 't' else tr_y)[i] = frozenset(e['train'])
-        bad = [i for i in rows if i in tr_t and i in tr_y and tr_t[i] and tr_t[i] == tr_y[i]]
+        # (two parts are recognised as the same by the identifiers they hold; parts made of copies of duplicated
+        #  records only -- possible with one-row parts -- cannot be told apart and are not judged)
+        bad = [i for i in rows if i not in twins and i in tr_t and i in tr_y and tr_t[i] and tr_t[i] == tr_y[i]
+               and not tr_t[i] <= twins]
         out.append((not bad, 'double cross-fit: treatment and outcome learners of a row trained on different parts'))
     return out
 
@@ -362,16 +432,41 @@ def strip_ids(log):
     return [{k_: v for k_, v in e.items() if k_ != 'fit_id'} for e in log]
 
 
+def k_split_hypothesis(chk, case):
+    """gate K / H: hypothesis `rows.Nodup` of split_partition(_generated), measured on the calls just made"""
+    obs = list(SPLIT_OBS)
+    del SPLIT_OBS[:]
+    if obs:
+        chk.k(all(u for u, _ in obs), 'labels handed to _sample_split_ are pairwise distinct (hypothesis of '
+              'split_partition)', {'case': case, 'calls_with_repeated_labels': sum(1 for u, _ in obs if not u),
+                                   'calls': len(obs)})
+        chk.h_checked += 1
+
+
+def count_data_shape(chk, case, rows):
+    chk.count('index_' + case['index'])
+    repeated = case['index'] in REPEATED_LABELS
+    if case['n_missing'] and repeated:
+        chk.count('missing_rows x repeated_index_labels')
+    if len(set(rows)) != len(rows):
+        chk.count('duplicated_records_' + case['dup_mode'])
+        if repeated or case['dup_mode'] != 'relabel':
+            chk.count('duplicated_records_sharing_a_label')
+
+
 def check_case(chk, drv, case):
     double = CLASSES[case['cls']]
+    del SPLIT_OBS[:]
     log1, res1, err1, rows = run_impl(case)
     lside = case.pop('_learner_side', False)
+    k_split_hypothesis(chk, case)
     n, k = len(rows), case['k']
     chk.case(case, (case['cls'], k, case['npart'], n, case['data_seed']) if (n % k or case['npart'] > 1) else None,
              sample=case if chk.evals % 23 == 0 else None)
     chk.count('cls_' + case['cls'])
     chk.count('n_mod_k_nonzero' if n % k else 'n_mod_k_zero')
     chk.count('kind_' + case['kind'])
+    count_data_shape(chk, case, rows)
     if case['random_state'] == 0:
         chk.count('random_state_0')
     if n // k <= 1:
@@ -427,19 +522,27 @@ def analyse(chk, drv, case, st, log1, err1, lside, rows, double):
         if len(obs_splits) != k:
             continue
         # ---- H: behaviour assumed of DataFrame.sample, on a reference invocation; K: documented seed procedure
-        m, rem, ref_ok, seed_ok = n // k, list(rows), True, True
+        # (rows are drawn and removed by POSITION in the frame of remaining rows: copies of a duplicated record are
+        #  separate rows)
+        m, rem, ref_ok, seed_ok = n // k, pd.DataFrame({'rid': list(rows)}), True, True
         for t in range(k - 1):
-            ref = [int(v) for v in pd.DataFrame({'rid': rem}).sample(n=m, random_state=RandomState(seeds[pi]))['rid']]
-            ref_ok = ref_ok and len(ref) == m and len(set(ref)) == m and set(ref) <= set(rem)
+            smp = rem.sample(n=m, random_state=RandomState(seeds[pi]))
+            ref = [int(v) for v in smp['rid']]
+            ref_ok = ref_ok and len(ref) == m and len(set(smp.index)) == m and set(smp.index) <= set(rem.index)
             seed_ok = seed_ok and ref == obs_splits[t]
-            rem = [i for i in rem if i not in set(ref)]
+            rem = rem.drop(smp.index)
             chk.h_checked += 1
+        seed_ok = seed_ok and [int(v) for v in rem['rid']] == obs_splits[k - 1]
         if not ref_ok:
             chk.discard('reference DataFrame.sample violated its assumed behaviour')
             continue
         chk.k(seed_ok, 'parts equal the documented seeded sampling procedure', dict(ctx, observed=obs_splits))
         # ---- K: the model, given the observed draws, reproduces all parts and the exact call sequence
-        if drv is not None:
+        if len(set(rows)) != len(rows):
+            # the model names a row by its identifier; copies of a duplicated record share one, so the call sequence
+            # cannot be matched row for row (the parts were compared with the documented procedure just above)
+            chk.count('model_trace_not_compared(duplicated records)')
+        elif drv is not None:
             # (executed: the partition assembled from the code regenerated from crossfit.py, Model/CrossfitGen.lean;
             #  `model` = the hand-written model of Props/C04.lean returns the same, as `crossfit_generated` proves)
             rep, line = drv.ask('crossfit', cls=case['cls'], k=k, rows=enc_list(rows, str),
@@ -459,8 +562,10 @@ def check_history(chk, drv, case):
     call for call and number for number, a FRESH object given only the last specification"""
     double = CLASSES[case['cls']]
     steps = case['history']
+    del SPLIT_OBS[:]
     outs, rows = run_steps(case, steps)
     fresh, _ = run_steps(case, steps[-1:])
+    k_split_hypothesis(chk, case)
     chk.case(case, ('history', case['cls'], tuple(s_['k'] for s_ in steps), case['data_seed']),
              sample=case if chk.evals % 7 == 0 else None)
     chk.count('history_' + case['cls'])
@@ -478,11 +583,13 @@ def check_pair(chk, drv, case):
     double = CLASSES[case['cls']]
     chk.case(case, ('pair', case['cls'], case['data_seed']))
     chk.count('pair_' + case['cls'])
+    del SPLIT_OBS[:]
     for ds in (case['data_seed'], case['data_seed2']):
         c = dict(case, data_seed=ds)
         log, res, err, rows = run_impl(c)
         lside = c.pop('_learner_side', False)
         analyse(chk, drv, dict(case, data_seed=ds), step_of(case), log, err, lside, rows, double)
+    k_split_hypothesis(chk, case)
 
 
 def make_history(rng, cls, tier):
@@ -505,18 +612,31 @@ def make_history(rng, cls, tier):
     return case
 
 
+INDEX_KINDS = ['default', 'stacked', 'shuffled', 'household', 'offset', 'string', 'constant', 'string_repeated',
+               'named_household', 'multi', 'datetime']
+REPEATED_LABELS = ('stacked', 'household', 'constant', 'string_repeated', 'named_household', 'multi', 'datetime')
+DUP_MODES = ['stack', 'expand', 'relabel']
+_ROT = itertools.count()
+
+
 def make_case(rng, cls, k, npart, tier, tiny=False, kind=None):
     n = int(rng.integers(k, 3 * k + 1)) if tiny else int(rng.integers(4 * k, (12 if tier == 'quick' else 30) * k))
     if kind in ('real', 'nested_real') and not tiny:      # a real classifier needs both classes in every part
         n = int(rng.integers(14 * k, 24 * k))
-    n_missing = int(rng.integers(0, 4)) if rng.uniform() < 0.4 else 0
+    # the data conditions are crossed, not drawn one at a time: the kind of index labels is rotated over the cases,
+    # and rows with missing values / exact duplicates of records are drawn independently of it, so that every kind
+    # of labels meets (no / some) missing rows and (no / some) duplicated records within a run
+    rot = next(_ROT)
+    n_missing = int(rng.integers(1, 4)) if rng.uniform() < 0.45 else 0
+    n_dup = int(rng.integers(1, 5)) if rng.uniform() < 0.35 else 0
     continuous = bool(rng.uniform() < 0.3)
     return {'cls': cls, 'k': int(k), 'npart': int(npart), 'n_total': n + n_missing, 'n_missing': n_missing,
             'continuous': continuous,
             # learner kinds are rotated by the caller (`kind`); a real learner cannot be fitted on a one-class part,
             # so tiny parts use the synthetic / composite / pipeline spies only
             'kind': kind or 'proba',
-            'index': str(rng.choice(['default', 'shuffled', 'offset'])),
+            'index': INDEX_KINDS[(rot + int(rng.integers(0, 2))) % len(INDEX_KINDS)],
+            'n_dup': n_dup, 'dup_mode': DUP_MODES[int(rng.integers(0, 3))], 'dup_complete': bool(rng.uniform() < 0.7),
             'bound': (False if rng.uniform() < 0.7 else 0.05), 'method': str(rng.choice(['median', 'mean'])),
             'data_seed': int(rng.integers(0, 2 ** 31)), 'random_state': int(rng.integers(0, 2 ** 31))}
 
@@ -571,6 +691,7 @@ def run(chk, drv, rng, tier):
                                  kind=KINDS[(count + 3) % len(KINDS)])
                 case['random_state'] = int(seed)
                 case['data_seed2'] = case['data_seed'] + 1 + int(rng.integers(0, 80))
+                case['dup_complete'] = True      # both data sets keep the same number of analysed rows
                 case['twice'] = False
                 guarded(chk, check_pair, chk, drv, case)
             # histories of fits on one object vs a fresh object
@@ -625,6 +746,32 @@ def direct_ties(chk, drv, rng, tier):
             chk.k(ok, 'regenerated _sample_split_ reproduces every part of the real one',
                   {'n': n, 'k': k, 'seed': seed, 'observed': parts, 'model': rep})
             chk.count('sample_split_direct')
+            # D on the splitting function itself: a frame whose rows are told apart by their index labels only (the
+            # column holds a few repeated values, i.e. exact duplicates of records under distinct labels -- what the
+            # estimators hand over after check_input_data when the caller's data hold duplicated records)
+            dcase = {'direct_split': True, 'n': n, 'k': k, 'seed': seed, 'base': base,
+                     'values': [int(v) for v in rng.integers(0, 3, size=n)]}
+            for ok, what in judge_direct_split(dcase):
+                chk.d(ok, what, {'case': dcase})
+
+
+def judge_direct_split(dcase):
+    from collections import Counter
+    from zepid.causal.doublyrobust import crossfit as xf
+    n, k = dcase['n'], dcase['k']
+    labels = list(range(dcase['base'], dcase['base'] + n))
+    df = pd.DataFrame({'v': np.asarray(dcase['values'], dtype=float)}, index=labels)
+    try:
+        parts = [[int(v) for v in p.index] for p in xf._sample_split_(df, n_splits=k, random_state=dcase['seed'])]
+    except Exception as e:
+        return [(False, '_sample_split_ raised on a frame with repeated values: %s' % repr(e)[:120])]
+    flat = [i for p in parts for i in p]
+    sizes = [len(p) for p in parts]
+    return [(len(parts) == k, '_sample_split_ (records with equal values): n_splits parts'),
+            (max(Counter(flat).values(), default=0) <= 1, '_sample_split_ (records with equal values): parts disjoint'),
+            (sorted(flat) == labels, '_sample_split_ (records with equal values): parts exhaustive'),
+            (max(sizes) - min(sizes) < max(k, 1) if sizes else False,
+             '_sample_split_ (records with equal values): parts near-equal')]
 
 
 def replay(rec):
@@ -635,6 +782,12 @@ def replay(rec):
             print('no replayable case in', f.get('what'))
             continue
         print('replaying', case)
+        if case.get('direct_split'):
+            for ok, what in judge_direct_split(case):
+                if not ok:
+                    bad += 1
+                    print(' FAILS:', what)
+            continue
         if 'data_seed2' in case or 'history' in case:
             import common
             c2 = common.Check('C04', 'replay', 0)
